@@ -24,7 +24,7 @@ theorem ev_SR (w : World) (ctx : StepCtx) (adv : Bool) :
 
 theorem ev_FL (w : World) (k : AfterFlush) :
     ev (.FL w k) = match w.maybeQueuePingreq w.now with
-      | .error e => w.finishErr (afterFlushName k) e
+      | .error e => (w.discFail (.flush k)).finishErr (afterFlushName k) e
       | .ok w1 =>
         match w1.sess.data.outbound.nextStep with
         | none => ev (.AF w1 k)
@@ -36,11 +36,11 @@ theorem ev_FL (w : World) (k : AfterFlush) :
 
 theorem ev_PS (w : World) (ctx : StepCtx) (step : Outbound.Step) (now : Nat) :
     ev (.PS w ctx step now) = match prepareStep w step with
-      | .fail e => w.finishErr (ctxName ctx) e
+      | .fail e => (w.discFail ctx).finishErr (ctxName ctx) e
       | .done => ev (.SR w ctx false)
-      | .flush pkt => if !w.live then w.finishErr (ctxName ctx) .disconnected else ev (.DSF w ctx pkt now)
+      | .flush pkt => if !w.live then (w.discFail ctx).finishErr (ctxName ctx) .disconnected else ev (.DSF w ctx pkt now)
       | .write pkt bytes written len =>
-        if !w.live then w.finishErr (ctxName ctx) .disconnected else ev (.DSW w ctx pkt bytes written len now) := by
+        if !w.live then (w.discFail ctx).finishErr (ctxName ctx) .disconnected else ev (.DSW w ctx pkt bytes written len now) := by
   rw [← run_ev _ (fuelBound + 1) (Nat.le_succ _)]
   show performStep (fuelBound + 1) w ctx step now = _
   rw [performStep]
@@ -49,7 +49,7 @@ theorem ev_PS (w : World) (ctx : StepCtx) (step : Outbound.Step) (now : Nat) :
 theorem ev_DSW (w : World) (ctx : StepCtx) (pkt : Flushed) (bytes : Bytes) (written len now : Nat) :
     ev (.DSW w ctx pkt bytes written len now) = match w.ioWrite (bytes.drop written) with
       | (w, .pending) => w.suspend (.stepWrite ctx pkt bytes written len now)
-      | (w, .zero) => w.finishErr (ctxName ctx) .writeZero
+      | (w, .zero) => (w.discFail ctx).finishErr (ctxName ctx) .writeZero
       | (w, .err k) => (w.handleDisconnect).finishErr (ctxName ctx) (.transport k)
       | (w, .ok count) =>
         if written + count < len then ev (.SR (w.setWritten pkt (written + count) len) ctx true)
@@ -325,13 +325,32 @@ inductive PcF (k : AfterFlush) (now : Nat) : Pc → Pc → Prop
   | flush (adv : Bool) (pkt : Flushed) :
       PcF k now (.stepFlush (.flush k) pkt now) (.stepFlush (.drive adv .poll) pkt now)
 
+/-- How the final states compare when both operations have completed with an error inside the flush:
+they are the same — except that `disconnect` (continuation `.discPre`) ends the connection when its
+preliminary flush fails (`disconnect_with`: `handle_disconnect()` before the error is returned), which
+`poll` does only for a transport error: then run A's state is run B's after `handle_disconnect`. -/
+def DoneF (k : AfterFlush) (a b : World) : Prop :=
+  a.fin = b.fin ∨ ((∃ d, k = .discPre d) ∧ a.fin = (b.handleDisconnect).fin)
+
+theorem DoneF.same {k : AfterFlush} {a b : World} (h : DoneF k a b) (hk : ∀ d, k ≠ .discPre d) : a.fin = b.fin := by
+  rcases h with h | ⟨⟨d, hd⟩, _⟩
+  · exact h
+  · exact (hk d hd).elim
+
+theorem doneF_discFail (k : AfterFlush) (adv : Bool) (x : World) (e : Err) :
+    DoneF k ((x.discFail (.flush k)).finishErr (ctxName (.flush k)) e)
+      ((x.discFail (.drive adv .poll)).finishErr (ctxName (.drive adv .poll)) e) := by
+  rcases discFail_cases x (.flush k) with ⟨e1, _⟩ | ⟨e1, d, hd⟩
+  · left; rw [e1]; rfl
+  · right; refine ⟨⟨d, by injection hd⟩, ?_⟩; rw [e1]; rfl
+
 /-- The three ways one POLL of the two runs can end. -/
 inductive OutF (k : AfterFlush) : World → World → Prop
   /-- both suspended again, at corresponding await points, in the same state -/
   | susp {a b : World} {pa pb : Pc} : a.fut = some pa → b.fut = some pb → a.rest = b.rest → AwaitOK a →
       PcF k a.now pa pb → OutF k a b
   /-- both operations completed (with the same error), in the same state -/
-  | done {a b : World} : a.fut = none → b.fut = none → a.fin = b.fin → OutF k a b
+  | done {a b : World} : a.fut = none → b.fut = none → DoneF k a b → OutF k a b
   /-- the queues are drained: run B's `poll` completed with `Ok`, and run A went on to its continuation
   `k` from the same state `u0` -/
   | handed {a b : World} (u0 : World) : a = ev (.AF u0 k) → u0.slot = none → b.fut = none →
@@ -353,17 +372,17 @@ theorem psF_none (k : AfterFlush) (u : World) (hs : u.slot = none) (hg : AwaitOK
     OutF k (ev (.PS u (.flush k) st u.now)) (ev (.PS u (.drive adv .poll) st u.now)) := by
   rw [ev_PS, ev_PS]
   cases hp : prepareStep u st with
-  | fail e => exact .done rfl rfl rfl
+  | fail e => exact .done rfl rfl (doneF_discFail k adv u e)
   | done => rw [hp] at hnd; simp [isDone] at hnd
   | flush pkt =>
     simp only []
     cases hl : u.live with
-    | false => exact .done rfl rfl rfl
+    | false => exact .done rfl rfl (doneF_discFail k adv u _)
     | true => simp only [Bool.not_true, Bool.false_eq_true, if_false]; exact dsfF_none k u hs hg adv pkt
   | write pkt bytes wr len =>
     simp only []
     cases hl : u.live with
-    | false => exact .done rfl rfl rfl
+    | false => exact .done rfl rfl (doneF_discFail k adv u _)
     | true => simp only [Bool.not_true, Bool.false_eq_true, if_false]; exact dswF_none k u hs hg adv pkt bytes wr len
 
 /-- After a step has returned (the I/O decision of this POLL is used up): `flush_outbound` in run A and
@@ -408,7 +427,7 @@ theorem dsfF (k : AfterFlush) (u : World) (hg : AwaitOK u) (adv : Bool) (pkt : F
       refine .susp rfl rfl rfl hgood ?_
       show PcF k u1.now _ _
       rw [e2]; exact .flush adv pkt
-    | err kk => exact .done rfl rfl rfl
+    | err kk => exact .done rfl rfl (.inl rfl)
     | ok =>
       simp only []
       rw [ev_SR, ev_SR]
@@ -436,8 +455,8 @@ theorem dswF (k : AfterFlush) (u : World) (hg : AwaitOK u) (adv : Bool) (pkt : F
       refine .susp rfl rfl rfl hgood ?_
       show PcF k u1.now _ _
       rw [e2]; exact .write adv pkt bytes wr len
-    | zero => exact .done rfl rfl rfl
-    | err kk => exact .done rfl rfl rfl
+    | zero => exact .done rfl rfl (doneF_discFail k adv u1 _)
+    | err kk => exact .done rfl rfl (.inl rfl)
     | ok count =>
       simp only []
       have hg2 : AwaitOK (u1.setWritten pkt (wr + count) len) := by
@@ -578,14 +597,20 @@ structure RF (k : AfterFlush) (a b : World) : Prop where
 /-- How one POLL with the same I/O decision ends. -/
 inductive StepF (k : AfterFlush) (a' b' : World) : Prop
   | susp : RF k a' b' → StepF k a' b'
-  | done : a'.fut = none → b'.fut = none → a'.fin = b'.fin → StepF k a' b'
+  | done : a'.fut = none → b'.fut = none → DoneF k a' b' → StepF k a' b'
   | handed (u0 : World) (oa : List String) : a' = wrap (ev (.AF u0 k)) oa → u0.slot = none → b'.fut = none →
       b'.lastRes = some (.ok ()) → u0.fin = b'.fin → StepF k a' b'
 
 theorem OutF.wrap {k : AfterFlush} {x y : World} (h : OutF k x y) (ox oy : List String) : StepF k (wrap x ox) (wrap y oy) := by
   cases h with
   | susp h1 h2 h3 h4 h5 => exact .susp ⟨wrap_rest_congr h3 _ _, ⟨h4.avail, h4.calm⟩, _, _, h1, h2, h5⟩
-  | done h1 h2 h3 => exact .done h1 h2 (wrap_fin_congr h3 _ _)
+  | done h1 h2 h3 =>
+    refine .done h1 h2 ?_
+    rcases h3 with h3 | ⟨hd, h3⟩
+    · exact .inl (wrap_fin_congr h3 _ _)
+    · refine .inr ⟨hd, ?_⟩
+      show (Minimq.wrap x ox).fin = ({ (y.handleDisconnect).fin with slot := none } : World)
+      rw [wrap_fin, h3]
   | handed u0 h1 h2 h3 h4 h5 =>
     refine .handed u0 ox (by rw [h1]) h2 h3 h4 ?_
     rw [wrap_fin, ← h5, show ({ u0.fin with slot := none } : World) = u0.fin from by
